@@ -11,7 +11,9 @@ APIS = ["run", "cp_update", "cp_delete", "out_delete"]
 def snapshot(fx):
     h = hashlib.sha256()
     root = fx.out_path()
-    for d, _, files in sorted(os.walk(root)):
+    for d, dirs, files in sorted(os.walk(root)):
+        for dn in sorted(dirs):
+            h.update(b"dir:" + os.path.relpath(os.path.join(d, dn), root).encode() + b"\0")     # empty directories count too
         for f in sorted(files):
             p = os.path.join(d, f)
             try:
